@@ -309,6 +309,26 @@ func init() {
 				c.m.block(c.t, &waitRec{kind: "sleep", check: func() bool { return c.m.sleepTokens > 0 }, what: "time.Sleep (gated)@" + c.m.pos(c.ins), ins: c.ins})
 				return
 			}
+			if c.m.timersOn {
+				// discrete-event clock: the goroutine parks until virtual time reaches now + d (time moves through other
+				// goroutines' verifAdvance / sleeps, or jumps to the earliest pending deadline at quiescence)
+				if tm := c.t.sleepTimer; tm != nil {
+					if tm.Fired {
+						c.t.sleepTimer = nil
+						c.ret(nil)
+						return
+					}
+				} else {
+					tm = c.m.newChan(1, nil)
+					tm.Timer = true
+					tm.Deadline = smt.Add(c.m.clock(), d)
+					c.m.timers = append(c.m.timers, tm)
+					c.t.sleepTimer = tm
+				}
+				tm := c.t.sleepTimer
+				c.m.block(c.t, &waitRec{kind: "sleep", timer: tm, check: func() bool { return tm.Fired }, what: "time.Sleep@" + c.m.pos(c.ins), ins: c.ins})
+				return
+			}
 			c.m.advanceClock(d)
 			c.ret(nil)
 		},
